@@ -22,8 +22,10 @@ GROUPS = {
     'SrcRender': dict(gen=['SrcRel', 'SrcPitch', 'SrcRender', 'KindPreds'], modules=['MV.Props.TieRender', 'MV.Props.TieKinds'],
                       kernels=['n2p', 'm2p']),
     'SrcSlice': dict(gen=['SrcSlice'], modules=['MV.Props.TieSlice'], kernels=['gmb'], driver='Src2'),
+    'SrcDur': dict(gen=['SrcDur'], modules=['MV.Props.TieDur', 'MV.Props.TieDurC10'], kernels=['mdur', 'cdur', 'sdur'],
+                   driver='Src2'),
 }
-HELPERS = ['MV.Lemmas.PyTie']
+HELPERS = ['MV.Lemmas.PyTie', 'MV.Lemmas.TieDurLemmas']
 
 
 def _scale(rng):
@@ -219,6 +221,24 @@ def cases(rng, kernel, n):
             out.append(([enc_melody(m), a, b], py_res(f), {'melody': str(m), 'a': frac_str(a), 'b': frac_str(b)},
                         [f'len={len(m.notes)}', 'a<b' if a < b else 'a>=b', 'a-on' if a in onsets else 'a-off',
                          'b-on' if b in onsets else 'b-off', 'b>total' if b > total else 'b<=total']))
+    elif kernel in ('mdur', 'cdur', 'sdur'):
+        from core import enc_melody, enc_score, frac_str
+        for i in range(n):
+            if kernel == 'mdur':
+                m = gen.rand_melody(rng, n_notes=(0, 7), p_rest=0.2, p_cont=0.2)
+                out.append(([enc_melody(m)], py_res(lambda: frac_str(m.duration)), {'melody': str(m)}, [f'len={len(m.notes)}']))
+            else:
+                sc = gen.rand_score(rng, n_chords=(1, 4), parts=('piano__0', 'violin__0', 'cello__0')[:rng.randint(1, 3)],
+                                    p_absent=0.3)
+                if kernel == 'cdur':
+                    c = rng.choice(sc.chords)
+                    if rng.random() < 0.1:
+                        c = c.copy()
+                        c.score = {}
+                    out.append(([enc_chord(c)], py_res(lambda: frac_str(c.duration)), {'chord': str(c)},
+                                [f'parts={len(c.score)}', 'unequal' if len({m.duration for m in c.score.values()}) > 1 else 'equal']))
+                else:
+                    out.append(([enc_score(sc)], py_res(lambda: frac_str(sc.duration)), {'score': str(sc)}, [f'chords={len(sc.chords)}']))
     else:
         raise KeyError(kernel)
     return out
